@@ -3,6 +3,7 @@ import DM.Props.C06
 import DM.Props.C07
 import DM.Props.C08
 import DM.Lemmas.AsciiRT
+import DM.Lemmas.X12RT
 /-!
 # C01 — the symbol-level half of the round trip, for all sizes and all contents
 
@@ -197,5 +198,28 @@ example : (match DM.Model.Enc.run (symbolList (List.range 30)) [] [65, 49, 50, 5
 example : (match DM.Model.Enc.run (symbolList (List.range 30)) [] [65, 49, 50, 51, 52, 233, 233] [(0, .ascii)] with
     | .ok (cw, sym) => cw == [66, 142, 164, 235, 106, 235, 106, 129] && sym == 3
     | .error _ => false) = true := by decide +kernel
+
+/-! ## The data-level half for a message planned entirely in X12
+
+`x12_roundtrip`: with the plan "latch to X12 at the start, stay there" (the optimiser's plan for
+X12 messages), whatever the encoder model returns decodes to the message — including the three
+end-of-data forms `x12::encode` chooses between by looking at the space left in the symbol: the
+run ends with the symbol (no UNLATCH), a single trailing ASCII codeword without UNLATCH when
+exactly one codeword is left, or UNLATCH followed by the rest in ASCII and padding. (For arbitrary
+injected plans the round trip does *not* hold — see DESIGN.md §0.6, "stale latch" — so the
+statement is per plan shape.) -/
+
+theorem x12_roundtrip (list : List Sym) (body cw : List Nat) (sym : Sym) (hb : ∀ b ∈ body, b < 256)
+    (h : DM.Model.Enc.run list [] body [(body.length, .x12), (0, .x12)] = .ok (cw, sym)) :
+    DM.Model.Dec.decodeData cw = .ok body :=
+  DM.Lemmas.X12RT.pure_x12_roundtrip list body cw sym hb h
+
+/-- Non-vacuity: the three endings (exact fit, single ASCII codeword without UNLATCH, UNLATCH + ASCII). -/
+example : DM.Model.Enc.run (symbolList (List.range 30)) [] [65, 65, 65] [(3, .x12), (0, .x12)] =
+    .ok ([238, 89, 191], 0) := by decide +kernel
+example : DM.Model.Enc.run (symbolList (List.range 30)) [] [65, 65, 65, 65, 65, 65, 65, 65, 65, 66] [(10, .x12), (0, .x12)] =
+    .ok ([238, 89, 191, 89, 191, 89, 191, 67], 3) := by decide +kernel
+example : DM.Model.Enc.run (symbolList (List.range 30)) [] [65, 65, 65, 65] [(4, .x12), (0, .x12)] =
+    .ok ([238, 89, 191, 254, 66], 1) := by decide +kernel
 
 end DM.Props.C01
